@@ -276,8 +276,8 @@ func TestC19_Enum(t *testing.T) {
 		}
 	}
 	for _, k := range []string{"Pod", "Service", "Node"} {
-		for _, ns := range uniNamespaces {
-			for _, nm := range uniNames {
+		for _, ns := range append(append([]string(nil), uniNamespaces...), "") {
+			for _, nm := range append(append([]string(nil), uniNames...), "") {
 				n++
 				if mine() {
 					c19Run(fail, &term{Kind: tInvolved, Inv: [3]string{k, ns, nm}}, c17Universe, "enumerated")
@@ -324,7 +324,7 @@ func c19RandomProp() func(*rapid.T) {
 			tm.Names = rapid.SliceOfN(rapid.SampledFrom([]string{"", "n1", "n2", "n3"}), 0, 3).Draw(t, "nodes")
 		case 2:
 			tm.Kind = tInvolved
-			tm.Inv = [3]string{rapid.SampledFrom([]string{"Pod", "Service", ""}).Draw(t, "ik"), rapid.SampledFrom(uniNamespaces).Draw(t, "ins"), rapid.SampledFrom(uniNames).Draw(t, "iname")}
+			tm.Inv = [3]string{rapid.SampledFrom([]string{"Pod", "Service", "", "Node"}).Draw(t, "ik"), rapid.SampledFrom(append(append([]string(nil), uniNamespaces...), "")).Draw(t, "ins"), rapid.SampledFrom(append(append([]string(nil), uniNames...), "")).Draw(t, "iname")}
 		case 3:
 			tm.Kind = tSelectorMatch
 			tm.Set = genLabelMap(true).Draw(t, "target")
